@@ -3,7 +3,7 @@
 # it breaks, reverts, and prints one line per change. usage: tools/all_mutants.sh [extra check args]
 HERE=$(cd "$(dirname "$0")/.." && pwd)
 for d in "$HERE"/seeded/*/; do
-  name=$(basename "$d"); [ "$name" = controls ] && continue
+  name=$(basename "$d"); [ "$name" = controls ] && continue; [ "$name" = probes ] && continue
   prop=$(python3 -c "import json,sys; print(json.load(open('$d/meta.json'))['property'])")
   patch="$d/patch.diff"; [ -f "$d/patch-on-current-tree.diff" ] && patch="$d/patch-on-current-tree.diff"
   git -C /repo apply --check "$patch" 2>/dev/null || { echo "$name: patch does not apply to the current tree (see meta.json)"; continue; }
